@@ -100,6 +100,57 @@ pub fn canon(v: &Value, root: &Value, stack: &mut Vec<String>, fuel: &mut usize)
                 }
                 m.insert(k.clone(), canon(x, root, stack, fuel));
             }
+            // the order of `required` says nothing
+            if let Some(Value::Array(req)) = m.get_mut("required") {
+                req.sort_by_key(|x| x.to_string());
+            }
+            // an intersection of closed object schemas without index signatures says what the one merged object says (which
+            // of the two the compiler prints depends on how the members were spelled)
+            if m.len() == 1 {
+                if let Some(Value::Array(members)) = m.get("allOf").cloned() {
+                    let plain = |x: &Value| {
+                        x.get("type") == Some(&json!("object"))
+                            && x.get("properties").map(|p| p.is_object()).unwrap_or(false)
+                            && x.get("additionalProperties") == Some(&json!(false))
+                            && x.as_object().map(|o| o.keys().all(|k| matches!(k.as_str(), "type" | "properties" | "required" | "additionalProperties"))).unwrap_or(false)
+                    };
+                    if members.len() >= 2 && members.iter().all(plain) {
+                        let mut props = serde_json::Map::new();
+                        let mut required: Vec<Value> = vec![];
+                        for x in &members {
+                            for (k, v) in x["properties"].as_object().unwrap() {
+                                match props.get(k).cloned() {
+                                    None => {
+                                        props.insert(k.clone(), v.clone());
+                                    }
+                                    Some(old) if old == *v => {}
+                                    Some(old) => {
+                                        let mut both = vec![old, v.clone()];
+                                        both.sort_by_key(|x| x.to_string());
+                                        props.insert(k.clone(), json!({"allOf": both}));
+                                    }
+                                }
+                            }
+                            if let Some(r) = x.get("required").and_then(|r| r.as_array()) {
+                                for k in r {
+                                    if !required.contains(k) {
+                                        required.push(k.clone());
+                                    }
+                                }
+                            }
+                        }
+                        required.sort_by_key(|x| x.to_string());
+                        let mut merged = serde_json::Map::new();
+                        merged.insert("type".into(), json!("object"));
+                        merged.insert("properties".into(), Value::Object(props));
+                        merged.insert("additionalProperties".into(), json!(false));
+                        if !required.is_empty() {
+                            merged.insert("required".into(), Value::Array(required));
+                        }
+                        return Value::Object(merged);
+                    }
+                }
+            }
             if m.len() == 1 {
                 if let Some(Value::Array(members)) = m.get("anyOf").cloned() {
                     let mut flat: Vec<Value> = vec![];
